@@ -462,12 +462,56 @@ func (c *normCtx) tryExtract(value ast.Value, expected Input) (ast.Value, bool) 
 		return value, false
 	}
 	name := c.nextName()
-	c.synthArgs[name] = coerced
+	// The synthetic argument travels through ordinary variable coercion at
+	// execute time, so it must be the literal in variable (JSON-like) form -
+	// an enum name, not its internal value - rather than the coerced value.
+	c.synthArgs[name] = literalToVariableValue(value)
 	c.newVarDefs = append(c.newVarDefs, ast.NewVariableDefinition(&ast.VariableDefinition{
 		Variable: ast.NewVariable(&ast.Variable{Name: ast.NewName(&ast.Name{Value: name})}),
 		Type:     typeASTFromGoType(expected),
 	}))
 	return ast.NewVariable(&ast.Variable{Name: ast.NewName(&ast.Name{Value: name})}), true
+}
+
+// literalToVariableValue converts a variable-free literal into the value a
+// client would send for a variable holding the same input.
+func literalToVariableValue(value ast.Value) interface{} {
+	switch v := value.(type) {
+	case *ast.IntValue:
+		if i, err := strconv.Atoi(v.Value); err == nil {
+			return i
+		}
+		if f, err := strconv.ParseFloat(v.Value, 64); err == nil {
+			return f
+		}
+		return v.Value
+	case *ast.FloatValue:
+		if f, err := strconv.ParseFloat(v.Value, 64); err == nil {
+			return f
+		}
+		return v.Value
+	case *ast.StringValue:
+		return v.Value
+	case *ast.BooleanValue:
+		return v.Value
+	case *ast.EnumValue:
+		return v.Value
+	case *ast.ListValue:
+		out := make([]interface{}, 0, len(v.Values))
+		for _, item := range v.Values {
+			out = append(out, literalToVariableValue(item))
+		}
+		return out
+	case *ast.ObjectValue:
+		out := make(map[string]interface{}, len(v.Fields))
+		for _, f := range v.Fields {
+			if f != nil && f.Name != nil {
+				out[f.Name.Value] = literalToVariableValue(f.Value)
+			}
+		}
+		return out
+	}
+	return nil
 }
 
 // typeASTFromGoType maps a runtime Type to its AST form so we can
